@@ -6,7 +6,11 @@ use cteepbd::types::*;
 use serde_json::{json, Value};
 
 fn tol(x: f32) -> f32 {
-    2e-4 * x.abs().max(1.0)
+    2e-4 * x.abs().max(1.0) + leaf::noise() as f32
+}
+/// a <= b for ratios (renewable shares) whose denominator is `den` kWh
+fn ratio_le(a: f32, b: f32, den: f32) -> bool {
+    a <= b + 2e-4 + (leaf::noise() as f32) / den.max(1e-6) && a.is_finite() && b.is_finite()
 }
 fn eq(a: f32, b: f32) -> bool {
     (a - b).abs() <= tol(a.abs().max(b.abs())) && a.is_finite() && b.is_finite()
@@ -194,7 +198,7 @@ pub fn c13(ep: &EnergyPerformance) -> Vec<(&'static str, String)> {
     let mut out = vec![];
     if tot > 1e-3 {
         if !eq(ep.rer, b.ren / tot) { out.push(("C13.rer", format!("RER {} != ren/(ren+nren) = {}", ep.rer, b.ren / tot))); }
-        else if !(ep.rer >= -1e-5 && ep.rer <= 1.0 + 1e-5) { out.push(("C13.range", format!("RER {} outside [0,1] (ren {} nren {})", ep.rer, b.ren, b.nren))); }
+        else if !(ep.rer >= -1e-5 - leaf::noise() as f32 / tot && ep.rer <= 1.0 + 1e-5 + leaf::noise() as f32 / tot) { out.push(("C13.range", format!("RER {} outside [0,1] (ren {} nren {})", ep.rer, b.ren, b.nren))); }
         if ep.rer_onst < -1e-5 { out.push(("C13.onst_nonneg", format!("RER_onst {} negative", ep.rer_onst))); }
         if !le(ep.rer_onst, ep.rer_nrb) { out.push(("C13.nested", format!("perimeters not nested: RER_onst {} > RER_nrb {} (RER {})", ep.rer_onst, ep.rer_nrb, ep.rer))); }
         if !le(ep.rer_nrb, ep.rer) { out.push(("C13.nrb_le_rer", format!("RER_nrb {} > RER {}", ep.rer_nrb, ep.rer))); }
@@ -215,7 +219,7 @@ pub fn c13(ep: &EnergyPerformance) -> Vec<(&'static str, String)> {
 
 fn annual_sig(ep: &EnergyPerformance) -> Vec<f32> {
     let b = &ep.balance;
-    vec![b.used.epus, b.used.nepus, b.prod.an, b.del.an, b.del.grid, b.exp.an, b.exp.grid, b.exp.nepus, b.we.a.ren, b.we.a.nren, b.we.a.co2, b.we.b.ren, b.we.b.nren, b.we.b.co2, if (b.we.b.ren + b.we.b.nren).abs() > 1e-2 { ep.rer } else { 0.0 }]
+    vec![b.used.epus, b.used.nepus, b.prod.an, b.del.an, b.del.grid, b.exp.an, b.exp.grid, b.exp.nepus, b.we.a.ren, b.we.a.nren, b.we.a.co2, b.we.b.ren, b.we.b.nren, b.we.b.co2, if leaf::ratio_ok((b.we.b.ren + b.we.b.nren) as f64) { ep.rer } else { 0.0 }]
 }
 /// annual_sig plus the EPB use of every service (in the fixed order of SERVICES_ALL)
 fn annual_sig2(ep: &EnergyPerformance) -> Vec<f32> {
@@ -241,7 +245,8 @@ fn annual_diff(a: &EnergyPerformance, b: &EnergyPerformance) -> Option<String> {
     leaf::diff(&leaf::results(a, true), &leaf::results(b, true), 1.0)
 }
 fn sig_eq(a: &[f32], b: &[f32]) -> Option<usize> {
-    a.iter().zip(b).position(|(x, y)| !eq(*x, *y))
+    // entry 14 is RER, reported as 0.0 by annual_sig when its denominator is within rounding noise on that side: compared only when meaningful on both
+    a.iter().zip(b).enumerate().position(|(i, (x, y))| !(i == 14 && (*x == 0.0 || *y == 0.0)) && !eq(*x, *y))
 }
 
 fn tcase(text: &str, k: f32, area: f32, lm: bool) -> Case {
@@ -284,8 +289,11 @@ pub fn check(pid: &str, seed: u64) -> Value {
         }
     };
     // hand-written special buildings (two cogeneration units, PV surplus to non-EPB uses, district networks ...)
-    for t in gen::extras() {
+    let mut texts: Vec<String> = gen::extras().iter().map(|s| s.to_string()).collect();
+    texts.extend(gen::random_texts(seed, scale()));
+    for t in texts.iter().map(|s| s.as_str()) {
         for lm in [false, true] {
+            leaf::reset_noise();
             match pid {
                 "C01" | "C04" | "C13" => {
                   for (k, area) in (if pid == "C04" { vec![(0.5f32, 2.5f32), (1.0, 12.345), (0.25, 0.004), (0.0, 0.015)] } else { vec![(0.0, 1.0)] }) {
@@ -323,7 +331,7 @@ pub fn check(pid: &str, seed: u64) -> Value {
                                 if !le(a1.nren, a0.nren) || !le(b1.nren, b0.nren) || !le(a1.co2, a0.co2) || !le(b1.co2, b0.co2) || !le(e1.balance.del.grid, e0.balance.del.grid) {
                                     failures.push(json!({"clause": "C14.nren_co2_grid", "components": t, "loc": loc, "k_exp": k, "load_matching": lm, "what": format!("adding {} kWh of on-site electricity raises nren / CO2 / grid delivery: B.nren {} -> {}, B.co2 {} -> {}, grid {} -> {}", d, b0.nren, b1.nren, b0.co2, b1.co2, e0.balance.del.grid, e1.balance.del.grid)}));
                                 }
-                                if k == 0.0 && b0.ren + b0.nren > 1e-3 && b1.ren + b1.nren > 1e-3 && !le(e0.rer, e1.rer) {
+                                if k == 0.0 && b0.ren + b0.nren > 1e-3 && b1.ren + b1.nren > 1e-3 && !ratio_le(e0.rer, e1.rer, (b0.ren + b0.nren).min(b1.ren + b1.nren)) {
                                     let cl = if bio { "C14.rer.renewable_cogeneration" } else { "C14.rer" };
                                     if failures.iter().filter(|f| f["clause"] == cl).count() < 3 {
                                         failures.push(json!({"clause": cl, "components": t, "loc": loc, "k_exp": k, "load_matching": lm, "what": format!("{}: adding {} kWh of on-site electricity lowers RER {} -> {}", loc, d, e0.rer, e1.rer)}));
@@ -470,6 +478,7 @@ pub fn check(pid: &str, seed: u64) -> Value {
     }
     for (idx, steps) in all.iter().enumerate() {
         if gen::text(steps).is_empty() { continue; }
+        leaf::reset_noise();
         let nt = steps.iter().any(|b| (b.pv > 0.0 || b.chp > 0.0) && (b.cal_el > 0.0 || b.acs_el > 0.0));
         match pid {
             "C01" | "C04" | "C13" => {
@@ -554,6 +563,7 @@ pub fn check(pid: &str, seed: u64) -> Value {
                             let s = annual_sig(&e);
                             for p in 0..s.len() {
                                 let want = if p == s.len() - 1 { base[p] } else { base[p] * c };
+                                if p == s.len() - 1 && (s[p] == 0.0 || base[p] == 0.0) { continue; }
                                 if !eq(s[p], want) { fail(&mut failures, steps, 0.5, 2.0, lm, format!("scaling every energy by {}: result #{} = {} instead of {}", c, p, s[p], want)); break; }
                             }
                             for (cr, b) in &e.balance_cr { if let Some(b0) = e0.balance_cr.get(cr) { if b.f_match.iter().zip(&b0.f_match).any(|(x, y)| !eq(*x, *y)) { fail(&mut failures, steps, 0.5, 2.0, lm, format!("scaling by {} changes the load matching factor of {}", c, cr)); } } }
@@ -591,7 +601,7 @@ pub fn check(pid: &str, seed: u64) -> Value {
                                 if !le(a1.nren, a0.nren) || !le(b1.nren, b0.nren) || !le(a1.co2, a0.co2) || !le(b1.co2, b0.co2) || !le(e1.balance.del.grid, e0.balance.del.grid) {
                                     fail(&mut failures, steps, k, 1.0, lm, format!("adding {} kWh of on-site electricity raises nren/co2/grid delivery: B.nren {} -> {}, grid {} -> {}", d, b0.nren, b1.nren, e0.balance.del.grid, e1.balance.del.grid));
                                 }
-                                if k == 0.0 && b0.ren + b0.nren > 1e-3 && b1.ren + b1.nren > 1e-3 && !le(e0.rer, e1.rer) {
+                                if k == 0.0 && b0.ren + b0.nren > 1e-3 && b1.ren + b1.nren > 1e-3 && !ratio_le(e0.rer, e1.rer, (b0.ren + b0.nren).min(b1.ren + b1.nren)) {
                                     fail(&mut failures, steps, k, 1.0, lm, format!("adding {} kWh of on-site electricity lowers RER {} -> {}", d, e0.rer, e1.rer));
                                 }
                             }
